@@ -282,7 +282,10 @@ class RandomHistory(object):
             if openids and r.random() < 0.5:
                 # an announcement that lacks parameters is not an announcement: a live client of that id is not touched by it
                 cid = r.choice(openids)
-                return {"t": "noise", "line": r.choice(["%d C 1.2.3.4", "%d C", "%d C 1.2.3.4 5 6.7.8.9", "%d C 1.2.3.4 5"]) % cid}
+                # (and the server's complaint about an earlier message of ours - `E <type> :<text>` - is only a complaint: the request
+                # held under that id, possibly a newer client's, is not touched by it)
+                return {"t": "noise", "line": r.choice(["%d C 1.2.3.4", "%d C", "%d C 1.2.3.4 5 6.7.8.9", "%d C 1.2.3.4 5", "%d E Mismatch :Got o for wrong client", "%d E Done :D after T",
+                                                        "%d E Garbage :x", "%d E Missing :id", "%d E Invalid :bad", "%d E Done", "%d E"]) % cid}
             # (numbers no integer type holds: whatever the C library reports about them must not linger)
             return {"t": "noise", "line": r.choice(["-1 M irc.example.net 20", "-1 E NOTICE :something", "-1 ? config", "-1 M srv",
                                                     "-1 M irc.example.net 99999999999999999999999", "-1 X nosuch.svc ffffffffffffffffffffffff_ffffffffffffffffffffffff :OK",
